@@ -165,6 +165,7 @@ type bcase struct {
 	Kind      string  `json:"site_kind"`
 	Host      string  `json:"host"`
 	Path      string  `json:"path"`
+	Spell     string  `json:"path_spelling,omitempty"` // how the path is written on the request line: "" as it is, upper, dslash, dot
 	Scope     string  `json:"applicable_scope"`
 	Allowed   []int64 `json:"applicable_limit"`
 	LenClass  string  `json:"len_class"`
@@ -180,6 +181,25 @@ type bcase struct {
 	Status  int    `json:"status"`
 	CliErr  string `json:"client_error,omitempty"`
 	tableIx int
+}
+
+// target is the path as written on the request line: the same resource in
+// another spelling (letter case, a doubled slash, a dot segment).
+func (cs *bcase) target() string {
+	switch cs.Spell {
+	case "upper":
+		return strings.ToUpper(cs.Path)
+	case "dslash":
+		return "/" + cs.Path
+	case "dslash-inner":
+		if i := strings.Index(cs.Path[1:], "/"); i >= 0 {
+			return cs.Path[:i+1] + "/" + cs.Path[i+1:]
+		}
+		return "/" + cs.Path
+	case "dot":
+		return "/zz/.." + cs.Path
+	}
+	return cs.Path
 }
 
 func (cs *bcase) refL() int64 {
@@ -210,6 +230,9 @@ func genCases(c *lib.Ctx, tables []table, n int) []*bcase {
 		}
 		cs.Host = hostOf(cs.tableIx, cs.Kind)
 		cs.Path = r.Pick(pathAlphabet)
+		if cs.Path != "/" && r.Intn(4) == 0 {
+			cs.Spell = r.Pick([]string{"upper", "dslash", "dot", "dslash-inner"})
+		}
 		cs.Scope, cs.Allowed, _ = cs.Table.applicable(cs.Path)
 		L := int(cs.refL())
 		cs.LenClass = r.Pick(lenClasses)
@@ -264,7 +287,7 @@ func genCases(c *lib.Ctx, tables []table, n int) []*bcase {
 }
 
 func (cs *bcase) key() string {
-	return fmt.Sprintf("%s|%s|%s|%s|%s|%s", lib.JSON(cs.Table.Entries), cs.Kind, cs.Path, cs.LenClass, cs.Framing, cs.ReadClass)
+	return fmt.Sprintf("%s|%s|%s|%s|%s|%s", lib.JSON(cs.Table.Entries), cs.Kind, cs.Path+cs.Spell, cs.LenClass, cs.Framing, cs.ReadClass)
 }
 
 // ---------------------------------------------------------------- recording back-end
@@ -581,7 +604,7 @@ func runBodyCase(c *lib.Ctx, k *client, cs *bcase, pool []byte, port int, specFo
 			cs.Rid += "-retry"
 		}
 		var h strings.Builder
-		fmt.Fprintf(&h, "POST %s HTTP/1.1\r\nHost: %s:%d\r\nX-Verif-Rid: %s\r\n", cs.Path, cs.Host, port, cs.Rid)
+		fmt.Fprintf(&h, "POST %s HTTP/1.1\r\nHost: %s:%d\r\nX-Verif-Rid: %s\r\n", cs.target(), cs.Host, port, cs.Rid)
 		if cs.Kind == kDirect {
 			fmt.Fprintf(&h, "X-Verif-Probe: %s\r\n", specFor(cs.ReadSize))
 		}
